@@ -399,6 +399,13 @@ def c15_runs(tier):
                     preempt=2, E=2, P=2, Q=1, method=1, noeventfd=1, hb=0))
     r.append(mt_run('eventfd-missing.rawevent-transport', 'harness/event.c', ['event.cross-thread-post-delivered'],
                     preempt=2, E=2, P=2, Q=1, method=2, noeventfd=1, hb=0))
+    # a facility disappears in one loop of a process that runs two: the loop that already uses it goes on
+    mcv = ['env.syscall-disappears-mid-run', 'mswitch.both-loops-completed', 'mswitch.late-wakeup']
+    r.append(mt_run('two-loops.timerfd-disappears', 'harness/mswitch.c', mcv, preempt=1 if q else 2, tfd=1))
+    r.append(mt_run('two-loops.ppoll-disappears', 'harness/mswitch.c', mcv, preempt=1 if q else 2, tfd=0, ppoll=1,
+                    method=2))
+    if not q:
+        r.append(mt_run('two-loops.timerfd+pwait2-disappear', 'harness/mswitch.c', mcv, preempt=1, tfd=1, pwait2=1))
     # pipe2 / splice
     r.append(pump_run('pump.no-splice-no-pipe2', 4, ['pump.done'], N=3, B=3, splice=0, relay=1, nopipe2=1))
     r.append(pump_run('pump.splice-no-pipe2', 4, ['pump.done'], N=3, B=3, splice=1, relay=1, nopipe2=1, pipecap=3))
@@ -429,12 +436,14 @@ def c14_runs(tier):
     for m, nm in ((1, 'epoll'), (0, 'epoll-timerfd'), (3, 'poll')):
         allruns.append(mt_run('loops.' + nm, 'harness/loops_mt.c', ['loops.concurrent-init-run-deinit'],
                               preempt=2 if q else 3, threads=2, rounds=1 if q else 2, method=m))
+    allruns.append(mt_run('loops.method-switch-mid-run', 'harness/mswitch.c', ['mswitch.both-loops-completed'],
+                          preempt=1 if q else 2, tfd=1, hb=1))
     if q:
         keep = ('posters.epoll-kick', 'posters.rawevent-poll', 'owner-activity.epoll', 'pipe-transport',
                 'threads.eventfd2', 'threads.pipe', 'signal.eventfd2', 'one-thread.I2', 'spawn+kill',
                 'two-loops.spawn-exits-at-once', 'burst.max1.put-after', 'burst.max2.put-after',
                 'chain.put-in-completion', 'idle-timeout.late-submit', 'continuation.put-late', 'iv_thread',
-                'loops.epoll', 'loops.epoll-timerfd', 'loops.poll')
+                'loops.epoll', 'loops.epoll-timerfd', 'loops.poll', 'loops.method-switch-mid-run')
         allruns = [x for x in allruns if x['name'] in keep]
     r = []
     for x in allruns:
